@@ -8,7 +8,8 @@ from typing import Any, Type, TYPE_CHECKING
 from sigma.correlations import SigmaCorrelationRule
 from sigma.exceptions import SigmaConfigurationError
 import sigma.processing.postprocessing
-from sigma.processing.templates import TemplateBase
+from jinja2.sandbox import SandboxedFormatter
+from sigma.processing.templates import TemplateBase, TemplateSandboxedEnvironment
 from sigma.processing.transformations import Transformation
 from sigma.rule import SigmaRule
 
@@ -70,10 +71,18 @@ class QuerySimpleTemplateTransformation(QueryPostprocessingTransformation):
     template: str
 
     def apply(self, rule: SigmaRule | SigmaCorrelationRule, query: Any) -> Any:
-        return self.template.format(
-            query=query,
-            rule=rule,
-            pipeline=self._pipeline,
+        # The template is part of the (possibly untrusted) pipeline. Plain str.format() follows
+        # attribute and item chains without any restriction, e.g. from a method to its module
+        # globals, where merely reading attributes can have side effects like running a command.
+        # The format string is therefore evaluated with the same sandbox as the Jinja templates.
+        return SandboxedFormatter(TemplateSandboxedEnvironment()).vformat(
+            self.template,
+            (),
+            {
+                "query": query,
+                "rule": rule,
+                "pipeline": self._pipeline,
+            },
         )
 
 
